@@ -28,7 +28,7 @@ def items(tier: str) -> List[Any]:
     if tier == "quick":
         small = small[:3]
     for s in spaces.layered(small, small, tier, l2_size=3, fall_off=False, l3=tier != "quick",
-                            l2_top_alpha=1 if tier == "quick" else 2, max_subs=1 if tier == "quick" else 2,
+                            l2_top_alpha=1, max_subs=1 if tier == "quick" else 2,
                             kinds=("assert", "ret1", "err", "if", "while", "call") if tier == "quick" else ("assert", "ret", "ret1", "err", "if", "while", "call")):
         if s not in seen:
             seen.add(s)
